@@ -942,8 +942,16 @@ def distance_matrix_fast(s, max_dist=None, use_pruning=False, max_length_diff=No
 
 def warping_path(from_s, to_s, include_distance=False, use_ndim=False, **kwargs):
     """Compute warping path between two sequences."""
-    dist, paths = warping_paths(from_s, to_s, use_ndim=use_ndim, **kwargs)
-    path = best_path(paths)
+    settings = DTWSettings(use_ndim=use_ndim, **kwargs)
+    if settings.adj_penalty:
+        # Backtracking has to apply the penalty, which requires the internal representation
+        _, result_fn, _ = innerdistance.inner_dist_fns(settings.inner_dist, use_ndim=use_ndim)
+        dist, paths = warping_paths(from_s, to_s, use_ndim=use_ndim, keep_int_repr=True, **kwargs)
+        path = best_path(paths, penalty=settings.adj_penalty)
+        dist = result_fn(dist)
+    else:
+        dist, paths = warping_paths(from_s, to_s, use_ndim=use_ndim, **kwargs)
+        path = best_path(paths)
     if include_distance:
         return path, dist
     return path
